@@ -71,4 +71,17 @@ CLAIMS = {
                 'the out-parameter table.  The application must not modify the table bytes it lent to the face.',
         'technique': 'interprocedural write-effect / ownership analysis over linked LLVM IR (custom LLVM tool) joined with AST dominance facts',
     },
+    'C09': {
+        'text': 'Decides race freedom for every thread schedule as an effect property: the instructions reachable from the shaping / query '
+                'API that write face- or font-owned memory (whole-library LLVM IR ownership analysis, as C08) are exactly the three tabled '
+                'lazy-cache fills; CFG path rules then show each fill is dead under the documented preconditions -- the glyph loader is '
+                'deleted and nulled on every non-allocation-failure path of the preload branch, the name table is looked up at load and '
+                'the lookup falsifies its own guard whether or not a table exists, every Font::advance call is dominated by isHinted() '
+                'and m_hinted requires a callback -- and that the table / advance callbacks are unreachable from shaping and called only '
+                'from their tabled sites.  With an empty shared write set no schedule can race.  That each thread obtains the '
+                'single-threaded result is not separately decided (it follows from C08\'s clause).',
+        'note': 'Trusted: as C08, plus rules/c09.py path rules and rules/dom.py.  Assumes callers do not share a segment or feature-value '
+                'object between threads while mutating it, and that logging is off (documented exclusions).',
+        'technique': 'interprocedural write-effect analysis over LLVM IR + CFG must-pass / dominance rules disabling each lazy cache + who-may-call on callbacks',
+    },
 }
